@@ -169,7 +169,7 @@ check('C16', 'exploration',
       "Built with -race -tags verif,sio_deadlock. A seeded generator produces concurrent API programs (2..16 goroutines x 15..40 operations drawn from 46 public operations on server, namespace, server socket, manager, "
       "client socket and adapter; a third of the event / ack / connection / disconnecting / disconnect handler invocations issue an operation themselves; transports and recovery vary), run in one child process per "
       "GOMAXPROCS value (quick {16,4}, thorough {1,2,4,16}) with random yields at hooks H1/H2/H4/H5. Monitors: Go race detector (halt_on_error=0, reports attributed by the first non-runtime frame of the two "
-      "accesses, only repository frames count), go-deadlock through the repository's internal/sync aliases (lock wait > 45 s = violation, lock-order reports = warnings), a 60 s per-operation watchdog with goroutine "
+      "accesses, only repository frames count), go-deadlock through the repository's internal/sync aliases (lock wait > 45 s with a stuck or vanished holder = violation, lock-order reports = warnings), a 60 s per-operation watchdog with goroutine "
       "dump, and child exit status (fatal errors such as concurrent map access).",
       "A clean race-detector run only covers accesses that were executed concurrently in these runs; the evidence lists the distinct pairs of operation kinds observed overlapping. The other e2e checks add race-detector sub-passes in their thorough tiers.",
       "race detector + instrumented mutexes (go-deadlock) + per-operation hang watchdog over generated concurrent API programs", "DESIGN.md §3 C16")
